@@ -18,7 +18,7 @@ use std::sync::Arc;
 use std::time::Duration;
 
 use datacake_crdt::{HLCTimestamp, Key, OrSWotSet, DATACAKE_EPOCH};
-use datacake_eventual_consistency::{BulkMutationError, Document, DocumentMetadata, Storage};
+use datacake_eventual_consistency::{BulkMutationError, Document, DocumentMetadata, PutContext, Storage};
 use parking_lot::Mutex;
 
 use crate::framework::{mix, Fnv};
@@ -301,6 +301,27 @@ impl Storage for SimStorage {
     async fn put(&self, keyspace: &str, document: Document) -> Result<(), Self::Error> {
         let items = vec![(document.id(), document.last_updated(), Some(document.data().to_vec()), false)];
         self.mutate("put", keyspace, items, false).await.map_err(|(e, _)| e)
+    }
+
+    // A storage may report progress through the context a repair hands it (the trait invites
+    // this for slow stores); this one always does, before the write itself.
+    async fn put_with_ctx(&self, keyspace: &str, document: Document, ctx: Option<&PutContext>) -> Result<(), Self::Error> {
+        if let Some(c) = ctx {
+            c.register_progress();
+        }
+        self.put(keyspace, document).await
+    }
+
+    async fn multi_put_with_ctx(
+        &self,
+        keyspace: &str,
+        documents: impl Iterator<Item = Document> + Send,
+        ctx: Option<&PutContext>,
+    ) -> Result<(), BulkMutationError<Self::Error>> {
+        if let Some(c) = ctx {
+            c.register_progress();
+        }
+        self.multi_put(keyspace, documents).await
     }
 
     async fn multi_put(
